@@ -41,6 +41,9 @@ impl Eq for CloseChannelEndResult {}
 //@item core/src/message/channel_end_closed.rs struct ChannelEndClosed
 //@item core/src/message/close_channel_end.rs struct CloseChannelEnd
 //@item core/src/message/close_channel_end_reply.rs struct CloseChannelEndReply
+//@item core/src/channel_end.rs enum ChannelEndWithCapacity attr=derive(Clone,Copy)
+//@item core/src/message/create_channel.rs struct CreateChannel
+//@item core/src/message/create_channel_reply.rs struct CreateChannelReply
 
 // the messages the handlers send; VersionedMessage::new / with_version take `impl Into<Message>` in the real code
 // protocol minor version that introduced each message kind sent by these handlers (0 = base protocol 1.14)
@@ -48,6 +51,13 @@ impl IntoMessage for ItemReceived { open spec fn min_minor() -> u32 { 0 } }
 impl IntoMessage for AddChannelCapacity { open spec fn min_minor() -> u32 { 0 } }
 impl IntoMessage for ChannelEndClosed { open spec fn min_minor() -> u32 { 0 } }
 impl IntoMessage for CloseChannelEndReply { open spec fn min_minor() -> u32 { 0 } }
+impl IntoMessage for CreateChannelReply { open spec fn min_minor() -> u32 { 0 } }
+
+// random UUIDv4 cookie: freshness w.r.t. live channels is ASSUMED at the creation site (see create_channel)
+impl ChannelCookie {
+    #[verifier::external_body]
+    pub fn new_v4() -> (r: Self) { unimplemented!() }
+}
 
 // ---- Channel: real data types, methods ASSUMED with the contracts verified in unit broker_channel ------------
 //@item broker/src/broker/channel.rs const LOW_CAPACITY
@@ -58,6 +68,8 @@ impl IntoMessage for CloseChannelEndReply { open spec fn min_minor() -> u32 { 0 
 //@include _shared/channel_specs.rs
 
 impl Channel {
+    //@fn-from broker_channel broker/src/broker/channel.rs Channel::with_claimed_sender
+    //@fn-from broker_channel broker/src/broker/channel.rs Channel::with_claimed_receiver
     //@fn-from broker_channel broker/src/broker/channel.rs Channel::check_close
     //@fn-from broker_channel broker/src/broker/channel.rs Channel::close
     //@fn-from broker_channel broker/src/broker/channel.rs Channel::send_item
@@ -70,6 +82,8 @@ impl Channel {
 impl ConnectionState {
     //@include _shared/conn_state_specs.rs
     //@fn-from broker_conn_state broker/src/broker/conn_state.rs ConnectionState::version
+    //@fn-from broker_conn_state broker/src/broker/conn_state.rs ConnectionState::add_sender
+    //@fn-from broker_conn_state broker/src/broker/conn_state.rs ConnectionState::add_receiver
     //@fn-from broker_conn_state broker/src/broker/conn_state.rs ConnectionState::remove_sender
     //@fn-from broker_conn_state broker/src/broker/conn_state.rs ConnectionState::remove_receiver
 
@@ -91,9 +105,9 @@ impl Broker {
 
     //@fn broker/src/broker.rs Broker::close_channel_end
         requires
-            old(self).chan_inv(),
+            old(self).chan_inv(), old(self).chan_owners_connected(),
         ensures
-            final(self).chan_inv(),
+            final(self).chan_inv(), final(self).chan_owners_connected(),
             final(self).chan_same_rest(old(self)),
             final(self).conns@.dom() == old(self).conns@.dom(),
             forall|c: ChannelCookie| c != req.cookie ==> final(self).channels@.contains_key(c) == old(self).channels@.contains_key(c),
@@ -119,9 +133,9 @@ impl Broker {
 
     //@fn broker/src/broker.rs Broker::add_channel_capacity
         requires
-            old(self).chan_inv(),
+            old(self).chan_inv(), old(self).chan_owners_connected(),
         ensures
-            final(self).chan_inv(),
+            final(self).chan_inv(), final(self).chan_owners_connected(),
             final(self).chan_same_rest(old(self)),
             final(self).conns@.dom() == old(self).conns@.dom(),
             // no other channel is touched
@@ -155,9 +169,9 @@ impl Broker {
 
     //@fn broker/src/broker.rs Broker::send_item
         requires
-            old(self).chan_inv(),
+            old(self).chan_inv(), old(self).chan_owners_connected(),
         ensures
-            final(self).chan_inv(),
+            final(self).chan_inv(), final(self).chan_owners_connected(),
             final(self).chan_same_rest(old(self)),
             final(self).conns@.dom() == old(self).conns@.dom(),
             // no other channel is touched
@@ -195,6 +209,47 @@ impl Broker {
                 && old(self).channels@[req.cookie].sender.claimed_by(id.id())
                 && old(self).channels@[req.cookie].receiver is Closed)
                 ==> final(self).channels@ == old(self).channels@ && final(self).conns@ == old(self).conns@,
+    //@end
+
+    // ---- create_channel ---------------------------------------------------------------------------------------------
+    //@fn broker/src/broker.rs Broker::create_channel
+        requires
+            old(self).chan_inv(), old(self).chan_owners_connected(),
+        ensures
+            final(self).chan_inv(), final(self).chan_owners_connected(),
+            final(self).chan_same_rest(old(self)),
+            final(self).conns@.dom() == old(self).conns@.dom(),
+            !old(self).conns@.contains_key(*id) ==> final(self).channels@ == old(self).channels@ && final(self).conns@ == old(self).conns@,
+            // a connected requester gets exactly one new channel, under a cookie no live channel uses, with the requested end
+            // claimed by the requester (receiver: with the announced capacity) and the other end unclaimed; no other channel
+            // and no other connection is touched
+            old(self).conns@.contains_key(*id) ==> exists|cookie: ChannelCookie| #![trigger final(self).channels@.contains_key(cookie)] {
+                &&& !old(self).channels@.contains_key(cookie)
+                &&& final(self).channels@.dom() =~= old(self).channels@.dom().insert(cookie)
+                &&& forall|c: ChannelCookie| #![trigger final(self).channels@[c]] old(self).channels@.contains_key(c) ==> final(self).channels@[c] == old(self).channels@[c]
+                &&& match req.end {
+                        ChannelEndWithCapacity::Sender => final(self).channels@[cookie].sender.claimed_by(id.id())
+                            && final(self).channels@[cookie].receiver is Unclaimed
+                            && final(self).conns@[*id].senders@ == old(self).conns@[*id].senders@.insert(cookie)
+                            && final(self).conns@[*id].rest_eq(&old(self).conns@[*id], 6),
+                        ChannelEndWithCapacity::Receiver(capacity) => final(self).channels@[cookie].receiver.claimed_by(id.id())
+                            && final(self).channels@[cookie].receiver.cap() == capacity
+                            && final(self).channels@[cookie].sender is Unclaimed
+                            && final(self).conns@[*id].receivers@ == old(self).conns@[*id].receivers@.insert(cookie)
+                            && final(self).conns@[*id].rest_eq(&old(self).conns@[*id], 7),
+                    }
+                &&& forall|k: ConnectionId| #![trigger final(self).conns@[k]] old(self).conns@.contains_key(k) && k != *id ==> final(self).conns@[k] == old(self).conns@[k]
+            },
+    //@ghost after `self.channels.insert(cookie, channel);`
+        proof {
+            assert(!old(self).channels@.contains_key(cookie));
+            assert(self.channels@.contains_key(cookie));
+            assert(self.channels@.dom() =~= old(self).channels@.dom().insert(cookie));
+            assert(forall|c: ChannelCookie| #![trigger self.channels@[c]] old(self).channels@.contains_key(c) ==> self.channels@[c] == old(self).channels@[c]);
+        }
+    //@ghost after `let cookie = ChannelCookie::new_v4();`
+        // ASSUMPTION (random UUIDv4): the new cookie is not the cookie of a live channel
+        proof { assume(!self.channels@.contains_key(cookie)); }
     //@end
 }
 
